@@ -165,10 +165,14 @@ Load == /\ disk.has /\ disk.fresh
 \* Load on a store written before branches existed: version-0 main-chain files holding the chain to block
 \* b and nothing else (b = 0: an empty store, the repository starts from genesis).  The code migrates the
 \* files and keeps the whole chain in memory.  Only possible as the first operation.
-LoadLegacy(b) == /\ last.op = "init"
-                 /\ acc' = Anc(b) /\ ever' = Anc(b) /\ tip' = b
-                 /\ last' = [op |-> "legacy", b |-> b, verdict |-> "ok", delta |-> <<>>]
-                 /\ UNCHANGED <<parent, work, invalid, subs, floorB, unsure, disk>>
+\* The store may also hold a list of invalid-marked hashes (it is a file of its own, written by every mark):
+\* I, none of them on the stored chain.
+LegacyInvalid(b) == {{}} \cup {{x} : x \in Blocks \ Anc(b)}
+LoadLegacy(b, I) == /\ last.op = "init"
+                    /\ acc' = Anc(b) /\ ever' = Anc(b) /\ tip' = b
+                    /\ invalid' = I
+                    /\ last' = [op |-> "legacy", b |-> b, verdict |-> "ok", delta |-> <<>>]
+                    /\ UNCHANGED <<parent, work, subs, floorB, unsure, disk>>
 
 Subscribe == /\ Len(subs) < MaxSubs
              /\ subs' = Append(subs, ChainOf(tip))
@@ -195,12 +199,12 @@ Unmark(b) == /\ b \in invalid
              /\ UNCHANGED <<parent, work, acc, ever, tip, subs, floorB, unsure>>
 
 Next == \/ \E b \in Blocks : Submit(b)
-        \/ Clean \/ Save \/ Load \/ Subscribe \/ (\E b \in AllB : LoadLegacy(b))
+        \/ Clean \/ Save \/ Load \/ Subscribe \/ (\E b \in AllB : \E I \in LegacyInvalid(b) : LoadLegacy(b, I))
         \/ \E b \in Blocks : Mark(b) \/ Unmark(b)
 Spec == Init /\ [][Next]_vars
 NextCore == (\E b \in Blocks : Submit(b)) \/ Subscribe
 SpecCore == Init /\ [][NextCore]_vars
-NextMaint == (\E b \in Blocks : Submit(b)) \/ Clean \/ Save \/ Load \/ (\E b \in AllB : LoadLegacy(b))
+NextMaint == (\E b \in Blocks : Submit(b)) \/ Clean \/ Save \/ Load \/ (\E b \in AllB : \E I \in LegacyInvalid(b) : LoadLegacy(b, I))
 SpecMaint == Init /\ [][NextMaint]_vars
 NextMark == (\E b \in Blocks : Submit(b) \/ Mark(b) \/ Unmark(b)) \/ Save \/ Load
 SpecMark == Init /\ [][NextMark]_vars
